@@ -37,6 +37,11 @@ EDITS = {
         "    if x < 0:\n        threshold += 1\n", "    if x <= 0:\n        threshold += 1\n"),
     "S8-coords_intersect-ge": ("semantic", "ethosu/vela/register_command_stream_util.py",
         "((end_x - start_x) > 0)", "((end_x - start_x) >= 0)"),
+    "S9-offset-block-coords-wrong-modulus": ("semantic", "ethosu/vela/register_command_stream_util.py",
+        "    coord_z = block.depth * (index % depth_blocks)", "    coord_z = block.depth * (index % width_blocks)"),
+    "S10-quantise_scale-shift-range": ("semantic", "ethosu/vela/scaling.py",
+        "    if not (0 <= shift < (1 << 6)):\n        # Shift outside of valid range, set scale to 0\n        return 0, 16\n\n    return significand_q31, shift",
+        "    if not (0 <= shift <= (1 << 6)):\n        # Shift outside of valid range, set scale to 0\n        return 0, 16\n\n    return significand_q31, shift"),
     # harmless rewrites
     "H1-rename-local": ("harmless", "ethosu/vela/fp_math.py", "ab_plus_nudge", "abn"),
     "H2-swap-independent-assignments": ("harmless", "ethosu/vela/fp_math.py",
